@@ -649,13 +649,17 @@ def replay(ctx, data):
         call = caller(r['iface'], module, x)
         direct = caller('class', module, x)
         if r['optimizer'] == 'collab_pls':
-            mk = r['method_kwargs']
+            mk = {k: (np.array(v) if isinstance(v, list) else v) for k, v in r['method_kwargs'].items()}
             method = r['method']
-            b, p = call('collab_pls', d, average_dataset=r['average_dataset'], method=method, method_kwargs=dict(mk))
+            if r.get('two_d'):
+                from pybaselines import Baseline2D
+                z = np.array(r['z'])
+                call = direct = lambda name, y, **kw: getattr(Baseline2D(x, z), name)(y, **kw)
+            b, p = call('collab_pls', d, average_dataset=r['average_dataset'], method=r.get('mname', method), method_kwargs=dict(mk))
             kws = dict(mk, weights=p['average_weights'])
             if method in ('aspls', 'pspline_aspls'):
                 kws['alpha'] = p['average_alpha']
-            if method not in ('mpls', 'pspline_mpls', 'fabc'):
+            if r.get('two_d') or method not in ('mpls', 'pspline_mpls', 'fabc'):
                 kws['tol'] = np.inf
             if method in ('brpls', 'pspline_brpls'):
                 kws['tol_2'] = np.inf
